@@ -590,6 +590,8 @@ void vrt_point (const char *what) {
 }
 
 /* ---------- atomics ---------- */
+static void (*write_monitor) (volatile void *, uint32_t, uint32_t, const char *, int) = NULL;
+void vrt_set_write_monitor (void (*fn) (volatile void *, uint32_t, uint32_t, const char *, int)) { write_monitor = fn; }
 static void atomic_addr_check (int t, volatile void *p, const char *what) {
 	if (!started) return;
 	if (vrt_is_freed ((const void *) p)) {
@@ -605,6 +607,7 @@ int vrt_cas (volatile void *p, uint32_t o, uint32_t n, int order, const char *fi
 	ok = (*w == o);
 	if (ok) { *w = n; hb_rmw (me->id, p, order); last_progress_step = steps; }
 	log_ev (me->id, K_CAS, order, p, o, n, ok, file, line);
+	if (ok && write_monitor != NULL) write_monitor (p, o, n, file, line);
 	me->pending_snap = ntrace - 1;
 	return ok;
 }
@@ -622,6 +625,7 @@ void vrt_store (volatile void *p, uint32_t v, int order, const char *file, int l
 	struct thr *me = sched_point (K_STORE);
 	atomic_addr_check (me->id, p, "atomic store");
 	log_ev (me->id, K_STORE, order, p, *(volatile uint32_t *) p, v, 1, file, line);
+	if (write_monitor != NULL) write_monitor (p, *(volatile uint32_t *) p, v, file, line);
 	*(volatile uint32_t *) p = v;
 	hb_store (me->id, p, order);
 	last_progress_step = steps;
@@ -631,6 +635,8 @@ void vrt_yield (void) {
 	struct thr *me = sched_point (K_YIELD);
 	log_ev (me->id, K_YIELD, 0, NULL, 0, 0, 1, NULL, 0);
 }
+
+int vrt_sched_yield (void) { vrt_yield (); return 0; }
 
 /* ---------- clock ---------- */
 int vrt_clock_gettime (clockid_t c, struct timespec *ts) {
